@@ -3,7 +3,7 @@ Serves C16 (cmath: exact functions bit-equal libm, approximating functions withi
 
   probes     one compile probe per function name: what etl does not provide is reported as not drivable
   MC         Float.tla on two exhaustively enumerated 9-bit minifloat formats (declarative = operational for every
-             exact operator) and on binary32 (laws on the boundary domain); the binary32 run EXPORTS the boundary
+             exact operator), on an 11-bit format with the three-limb fraction used for x87 long double, and on binary32 (laws on the boundary domain); the binary32 run EXPORTS the boundary
              table that the driver replays
   record     float_driver groups (run time, laundered inputs) + float_ct groups (forced constant evaluation)
   TV         FloatTrace.tla judges every event; the same traces recorded from libm/libstdc++ (-DVH_STD) must give
@@ -39,12 +39,16 @@ def probe():
             return n, subprocess.run(cmd, capture_output=True, timeout=300).returncode == 0
         except subprocess.TimeoutExpired:
             raise vlib.ModelFailure("probe timeout " + n)
-    jobs = list(NAMES) + ["hypot3", "complex"]
+    jobs = list(NAMES) + ["hypot3", "complex", "nextafter_l"]
 
     def run1(n):
         if n == "hypot3":
             cmd = ["g++", "-std=c++20", "-fsyntax-only", "-w", "-I" + inc, "-DVH_PROBE_F=etl::hypot(pf, pf, pf)",
                    "-DVH_PROBE_D=etl::hypot(pd, pd, pd)", src]
+            return n, subprocess.run(cmd, capture_output=True, timeout=300).returncode == 0
+        if n == "nextafter_l":
+            cmd = ["g++", "-std=c++20", "-fsyntax-only", "-w", "-I" + inc, "-DVH_PROBE_F=etl::nextafter(1.0L, 2.0L)",
+                   "-DVH_PROBE_D=etl::floor(1.5L)", src]
             return n, subprocess.run(cmd, capture_output=True, timeout=300).returncode == 0
         if n == "complex":
             cmd = ["g++", "-std=c++20", "-fsyntax-only", "-w", "-I" + inc, "-DVH_PROBE_F=etl::abs(etl::complex<float>{pf, pf})",
@@ -64,8 +68,8 @@ def model(tier, rep):
     def one(mode):
         return mode, vlib.tlc_mc("Float.tla", "Float.cfg", "float_mc_%s_%s" % (mode, tier), workers=8 if mode == "f32" else 4, heap="3g",
                                  constants={"Mode": '"%s"' % mode, "Tier": '"%s"' % tier}, env=JENV)
-    with ThreadPoolExecutor(max_workers=3) as ex:
-        res = dict(ex.map(one, ("toy1", "toy2", "f32")))
+    with ThreadPoolExecutor(max_workers=4) as ex:
+        res = dict(ex.map(one, ("toy1", "toy2", "toy3", "f32")))
     for mode, r in res.items():
         rep.add_mc("Float[%s]" % mode, r)
     gen = res["f32"]["gen"]
@@ -111,6 +115,7 @@ def execute(tier, bins, impl, table, ct=True, tag=""):
         outs.append(tp)
     add("table", [b, "table", table, str(nr[0]), seed])
     add("dtable", [b, "dtable", tier, str(nr[1]), seed])
+    add("ltable", [b, "ltable", tier, str(nr[1] // 10), seed])
     add("binary", [b, "binary", tier, str(nr[2]), seed])
     add("approx", [b, "approx", tier, str(nr[3]), seed])
     add("complex", [b, "complex", tier, str(nr[4]), seed])
@@ -227,7 +232,8 @@ def pipeline(tier, rep, calibrate=True):
         lines = f.readlines()
         for i in (len(lines) // 7, len(lines) // 2, len(lines) - 5):
             rep.sample({"module": "Float", "event": json.loads(lines[i])})
-    m["not_drivable"] = ["etl::%s is not declared" % n for n in absent]
+    m["not_drivable"] = ["etl::%s is not declared" % n if n != "nextafter_l" else "etl::nextafter has no long double overload"
+                         for n in absent]
     m["boundary_table_values"] = ntab
     m["inputs_executed"] = n_inputs
     if c is not None:
